@@ -1360,7 +1360,7 @@ class FuncEscapePattern(ValueFunc):
         if args.isNull("s"):
             return NULL
         value = args.getString("s").value
-        return ValueString(value.replace("|", "\\|").replace(".", "\\."))
+        return ValueString(re.escape(value))
 
 
 class FuncEval(ValueFunc):
